@@ -877,6 +877,19 @@ class Interp:
                     sub.append(Ev("carried", value=k, site=self.site(st, fr), info=fr.locals.get(k)))
             self.emit(Ev("foreach", src=src, elem=el, body=sub, site=self.site(st, fr)))
             return
+        once = self.hooks.get("__while_once__", ())
+        if fr.fi is not None and fr.fi.qualname in once:
+            # analyse ONE generic iteration of this loop: the state at its end is the result
+            if not self.truth(self.eval(st.test, fr), st.test):
+                self.exec_block(st.orelse, fr)
+                return
+            try:
+                self.exec_block(st.body, fr)
+            except _Break:
+                return
+            except _Continue:
+                pass
+            raise _Return(Term("loop-continues", (dict(fr.locals),), self.ctx.new_id()))
         n = 0
         limit = self.hooks.get("__while_limit__", 64)
         while True:
